@@ -3,10 +3,10 @@
 # extraction of the executable models, OCaml driver. Offline.
 set -e
 cd "$(dirname "$0")"
+python3 lib/gencoq.py 2>/dev/null || true    # translators: regenerate coq/Gen/*.v from /repo's current sources
 cd coq
 coq_makefile -f _CoqProject -o Makefile $(find . -name '*.v' | sed 's|^\./||' | sort) > /dev/null
-timeout 3000 make -j16 > make.log 2>&1 || { tail -30 make.log; exit 1; }
-cd ../extract
-timeout 900 coqc -Q ../coq OM Extract.v > /dev/null
-ocamlfind ocamlopt -O3 -w -a model.mli model.ml driver.ml -o omm 2>/dev/null || ocamlfind ocamlopt -w -a model.mli model.ml driver.ml -o omm
+timeout 3000 make -j16 > make.log 2>&1 || { grep -B2 -A12 'Error' make.log | head -80; exit 1; }
+cd ..
+./extract/build.sh
 echo "setup ok"
